@@ -1,7 +1,7 @@
 (* C12 -- statements only; see DESIGN.md section 6 C12.  Theorems are added as the proofs land;
    the witnesses below are evaluated in the kernel on the whole-parser model. *)
 From Coq Require Import String.
-From MdIt Require Import Prims Tables Escape Tree Render Core Dump Dispatch EscapeProofs EscapeCtxProofs.
+From MdIt Require Import Prims Tables Escape Tree Render Block Inline Core Dump Dispatch RangeProofs EscapeProofs EscapeCtxProofs EscapeTextProofs.
 Local Open Scope string_scope.
 Local Open Scope list_scope.
 Local Open Scope N_scope.
@@ -67,6 +67,42 @@ Theorem C12_named_in_context : forall pre c body v post, forallb plain pre = tru
   unescape_all (pre ++ 38 :: c :: body ++ 59 :: post) = pre ++ v ++ unescape_all post.
 Proof. exact named_in_context. Qed.
 
+(* THE PARAGRAPH-TEXT PATH (inline entity and escape rules) agrees with the attribute path (EscapeTextProofs):
+   - whenever the entity rule accepts, the node holds the consumed markup and exactly the characters unescape_all makes
+     of that markup;
+   - every name of the table and every well-formed numeric reference standing at the current position IS accepted, and
+     the node holds the table value / the character of the code point (U+FFFD when not allowed);
+   - an escaped ASCII character yields a node holding what unescape_all makes of the same two bytes.
+   With the context theorems above: a reference or escape denotes the same characters in paragraph text as in a
+   destination, title, definition or info string.  (The range of the node is whatever iget_map returns; its success is
+   a hypothesis here and the subject of C05.) *)
+Theorem C12_text_path_same_decoding : forall st st' n, rule_entity st false = inr (st', Some n) ->
+  exists markup content rng,
+    last_child st' = Some (mk (KTextSpecial content markup true) rng []) /\ n = len markup /\
+    unescape_all markup = content.
+Proof. exact entity_rule_same_decoding. Qed.
+
+Theorem C12_text_path_named : forall st k v tail1 tail2 m,
+  get_entity_from_str k = Some v ->
+  irest st = inr (k ++ tail1) -> isl st (i_pos st) (len (i_src st)) = inr (k ++ tail2) ->
+  iget_map st (i_pos st) (i_pos st + len k) = inr m ->
+  rule_entity st false = inr (ipush st (mk (KTextSpecial v k true) m []), Some (len k)).
+Proof. exact entity_rule_accepts_named. Qed.
+
+Theorem C12_text_path_numeric : forall st body code tail1 tail2 m,
+  numeric_code body = Some code ->
+  irest st = inr (38 :: 35 :: body ++ 59 :: tail1) -> isl st (i_pos st) (len (i_src st)) = inr (38 :: 35 :: body ++ 59 :: tail2) ->
+  iget_map st (i_pos st) (i_pos st + (2 + len body + 1)) = inr m ->
+  rule_entity st false =
+    inr (ipush st (mk (KTextSpecial (code_to_str code) (38 :: 35 :: body ++ [59]) true) m []), Some (2 + len body + 1)).
+Proof. exact entity_rule_accepts_numeric. Qed.
+
+Theorem C12_text_path_escape : forall st d tail m,
+  irest st = inr (92 :: d :: tail) -> d <> 10 -> d < 128 ->
+  iget_map st (i_pos st) (i_pos st + 2) = inr m ->
+  rule_escape st false = inr (ipush st (mk (KTextSpecial (unescape_all [92; d]) [92; d] false) m []), Some 2).
+Proof. exact escape_rule_same_decoding. Qed.
+
 Example C12_context_nonvacuous :
   unescape_all (bs "/p&amp;z\*&#x41;") = bs "/p&z*A" /\ forallb plain (bs "/p") = true.
 Proof. vm_compute. split; reflexivity. Qed.
@@ -83,3 +119,7 @@ Print Assumptions C12_escape.
 Print Assumptions C12_escape_in_context.
 Print Assumptions C12_numeric_in_context.
 Print Assumptions C12_named_in_context.
+Print Assumptions C12_text_path_same_decoding.
+Print Assumptions C12_text_path_named.
+Print Assumptions C12_text_path_numeric.
+Print Assumptions C12_text_path_escape.
